@@ -228,9 +228,13 @@ package encode
 //@   property DEPA
 //@   assume-dep interface contract: the implementations in package encode are verified against their own stronger contracts (C15); a user-supplied encoder is trusted to be total on the encodings it produced and read-only
 
+// encsize0(e): the size e reports for a nil argument, i.e. the element width of a fixed-size encoder (naming clause of the
+// deterministic interface method; the legacy loader sizes pre-0.5.12 leaf arrays with it)
+//@ spec encsize0(e interface{}) int
 //@ func Encoder.GetEncodedSize
 //@   property DEPA
 //@   assume-dep interface contract (see Encoder.Decode)
+//@   ensures a0 == nil ==> result == encsize0(recv)
 
 //@ func Encoder.Encode
 //@   property DEPA
